@@ -184,9 +184,9 @@ theorem doc_anchoredT (cfg : DocCfg) (src : List Char) (hsp : cfg.sourcepos = tr
     · rename_i t0 hs
       simp only [Except.ok.injEq] at h
       subst h
-      apply spPure_everyK
+      apply spPure_everyKR
       apply joined_everyK (fun k r hk => anchK_nr src k r hk)
-      refine spliceNode_everyK (Q := AnchK src)
+      refine spliceNode_everyKR (Q := AnchK src)
         (Pb := fun _ r => ∀ a b, r = some (a, b) → a < b ∧ Block.OnByte src a)
         (Pi := fun c m => TabT src c m) ?_ ?_ root t0 ?_ ?_ hs
       · intro k r hp _ a b hr
